@@ -7,6 +7,7 @@ import (
 	"sort"
 	"strings"
 	"sync"
+	"sync/atomic"
 	"time"
 
 	"github.com/ipfs/go-cid"
@@ -57,8 +58,8 @@ func c08Run(c *vf.Ctx, sub string, explicit bool) {
 	}
 	ids := allIdents()
 	for i := 0; i < n; i++ {
-		if !c.Mine(sub, i) {
-			continue
+		if !c.Mine(sub, i) || c08Stuck.Load() >= 2 {
+			continue // every stuck run costs the full quiescence deadline; two settle the verdict
 		}
 		r := c.Rand(sub, i)
 		k := c08Cfg{K: 1 + r.Intn(4), Explicit: explicit, Bursts: 2 + r.Intn(4), Delay: []int{0, 100, 300, 600}[r.Intn(4)], Stall: []int{0, 100, 300}[r.Intn(3)]}
@@ -79,6 +80,8 @@ func c08Run(c *vf.Ctx, sub string, explicit bool) {
 		c08One(c, sub, i, r, k, ids)
 	}
 }
+
+var c08Stuck atomic.Int64
 
 type c08Hook struct {
 	T    int64
@@ -181,6 +184,7 @@ func c08One(c *vf.Ctx, sub string, i int, r *rand.Rand, k c08Cfg, ids []Ident) {
 
 	var wg sync.WaitGroup
 	announced := 0
+	explicitThenAnnounce := 0
 	var amu sync.Mutex
 	for _, p := range pubs {
 		wg.Add(1)
@@ -198,6 +202,16 @@ func c08One(c *vf.Ctx, sub string, i int, r *rand.Rand, k c08Cfg, ids []Ident) {
 					p.front.Pub.SetRoot(h)
 					p.ann = append(p.ann, h)
 					p.mu.Unlock()
+					if k.Explicit && rr.Intn(4) == 0 {
+						// the head is synced explicitly first and announced afterwards (an indexer that
+						// polls and also receives announcements does exactly this)
+						tl.mark("client.explicit.call", p.id.ID, h)
+						_, _ = s.SyncAdChain(context.Background(), p.front.AddrInfo())
+						tl.mark("client.explicit.ret", p.id.ID, h)
+						amu.Lock()
+						explicitThenAnnounce++
+						amu.Unlock()
+					}
 					tl.mark("client.announce.call", p.id.ID, h)
 					err := s.Announce(context.Background(), h, p.front.AddrInfo())
 					tl.mark("client.announce.ret", p.id.ID, h)
@@ -289,6 +303,7 @@ func c08One(c *vf.Ctx, sub string, i int, r *rand.Rand, k c08Cfg, ids []Ident) {
 		return map[string]any{"config": k.String(), "event_log": lines}
 	}
 	if !quiet {
+		c08Stuck.Add(1)
 		c.Fail(sub, i, "no-quiescence", fmt.Sprintf("announced=%d watch.recv=%d spawned=%d async.enter=%d async.exit=%d", announced, tl.count("watch.recv"), tl.count("watch.swap.spawn"), tl.count("async.enter"), tl.count("async.exit")), wit())
 		return
 	}
@@ -300,6 +315,8 @@ func c08One(c *vf.Ctx, sub string, i int, r *rand.Rand, k c08Cfg, ids []Ident) {
 		stopRead   cid.Cid
 		latestAt   cid.Cid
 		stale      bool
+		staleHead  bool // the head being synced is older than the latest-synced advertisement at entry
+		head       cid.Cid
 		hooks      []int
 	}
 	var syncs []*interval
@@ -321,8 +338,11 @@ func c08One(c *vf.Ctx, sub string, i int, r *rand.Rand, k c08Cfg, ids []Ident) {
 				c.Fail(sub, i, "two-syncs-of-one-publisher-overlap", fmt.Sprintf("sync.enter at %d while the sync entered at %d has not exited", e.T, open[e.Peer].enter), wit())
 				return
 			}
-			iv := &interval{peer: e.Peer, enter: e.T, g: e.G, stopRead: stopByG[e.G], latestAt: e.Aux}
+			iv := &interval{peer: e.Peer, enter: e.T, g: e.G, stopRead: stopByG[e.G], latestAt: e.Aux, head: e.Cid}
 			iv.stale = !iv.stopRead.Equals(iv.latestAt)
+			if p := byID[e.Peer]; p != nil && e.Aux.Defined() && p.chain.Pos(e.Cid) >= 0 && p.chain.Pos(e.Cid) < p.chain.Pos(e.Aux) {
+				iv.staleHead = true
+			}
 			open[e.Peer] = iv
 			syncs = append(syncs, iv)
 		case "sync.exit":
@@ -375,6 +395,18 @@ func c08One(c *vf.Ctx, sub string, i int, r *rand.Rand, k c08Cfg, ids []Ident) {
 		seen := map[int]int{}
 		var perSync []string
 		staleInvolved := false
+		staleHead := false
+		for _, iv := range syncs {
+			if iv.peer == p.id.ID && iv.staleHead {
+				staleHead = true
+			}
+		}
+		suffix := ""
+		if staleHead {
+			// an announcement of an OLDER head was handled after a newer head had been synced explicitly
+			suffix = ":announced-head-older-than-latest-synced"
+			c.Inc("runs_with_stale_announced_head")
+		}
 		for _, iv := range syncs {
 			if iv.peer != p.id.ID {
 				continue
@@ -403,6 +435,7 @@ func c08One(c *vf.Ctx, sub string, i int, r *rand.Rand, k c08Cfg, ids []Ident) {
 				if k.Explicit && staleInvolved {
 					key = "advertisement-reported-more-than-once:stale-stop-overlap"
 				}
+				key += suffix
 				c.Fail(sub, i, key, fmt.Sprintf("publisher P%d advertisement #%d reported %d times; hooks per sync: %s", x, pos, seen[pos], strings.Join(perSync, " ")), wit())
 				break
 			}
@@ -422,6 +455,7 @@ func c08One(c *vf.Ctx, sub string, i int, r *rand.Rand, k c08Cfg, ids []Ident) {
 				if k.Explicit {
 					key = "block-requested-twice:stale-stop-overlap"
 				}
+				key += suffix
 				cd, _ := cid.Decode(q)
 				c.Fail(sub, i, key, fmt.Sprintf("publisher P%d advertisement #%d", x, p.chain.Pos(cd)), wit())
 				break
@@ -441,13 +475,14 @@ func c08One(c *vf.Ctx, sub string, i int, r *rand.Rand, k c08Cfg, ids []Ident) {
 			}
 			emu.Unlock()
 			if !errSeen {
-				c.Fail(sub, i, "last-announcement-lost", fmt.Sprintf("publisher P%d: latest-synced is #%d, last announced head is #%d, activity has ceased and no error notification was delivered",
+				c.Fail(sub, i, "last-announcement-lost"+suffix, fmt.Sprintf("publisher P%d: latest-synced is #%d, last announced head is #%d, activity has ceased and no error notification was delivered",
 					x, p.chain.Pos(finalLatest[p.id.ID]), p.chain.Pos(lastAnn)), wit())
 			}
 		}
 	}
 	c.Eval(1)
 	c.Add("announcements", int64(announced))
+	c.Add("head_synced_explicitly_then_announced", int64(explicitThenAnnounce))
 	c.Add("coalesced_announcements", int64(coalesced))
 	c.Add("spawn_while_previous_sync_running", int64(spawnWhileRunning))
 	c.Add("syncs_observed", int64(len(syncs)))
